@@ -70,6 +70,30 @@ theorem normalize_spec (lower : String → String) (a : Int) (tags : Option (Lis
   simp [ClassPy.normalize_amount, ClassPy.is_income, ClassPy.is_investment, ClassPy.get_tags_lower,
     ClassPy.INCOME_TAG, ClassPy.INVESTMENT_TAG, N, intNum, absI]
 
+/-- "chosen ONLY by whether its tags contain income, investment or transfer": two tag lists that agree on the
+membership of each of the three words (after lower-casing) give the same buckets, whatever else they contain -/
+theorem bucket_only_by_membership (lower : String → String) (a : Int) (tags tags' : Option (List String))
+    (hi : ((orEmpty tags).map lower).contains "income" = ((orEmpty tags').map lower).contains "income")
+    (hv : ((orEmpty tags).map lower).contains "investment" = ((orEmpty tags').map lower).contains "investment")
+    (ht : ((orEmpty tags).map lower).contains "transfer" = ((orEmpty tags').map lower).contains "transfer") :
+    ClassPy.categorize_amount N lower a tags = ClassPy.categorize_amount N lower a tags' := by
+  rw [one_bucket, one_bucket]; simp only [choice, hi, hv, ht]
+
+/-- a tag whose lower-cased text is not EXACTLY one of the three words (`income-tax`, ` income`, `transfers`,
+`İncome` …) is ordinary: adding it anywhere changes neither the bucket nor the normalised amount -/
+theorem ordinary_tag_neutral (lower : String → String) (a : Int) (t : String) (pre post : List String)
+    (h1 : lower t ≠ "income") (h2 : lower t ≠ "investment") (h3 : lower t ≠ "transfer") :
+    ClassPy.categorize_amount N lower a (some (pre ++ t :: post)) = ClassPy.categorize_amount N lower a (some (pre ++ post)) ∧
+    ClassPy.normalize_amount N lower a (some (pre ++ t :: post)) = ClassPy.normalize_amount N lower a (some (pre ++ post)) := by
+  have key : ∀ w : String, lower t ≠ w →
+      ((orEmpty (some (pre ++ t :: post))).map lower).contains w = ((orEmpty (some (pre ++ post))).map lower).contains w := by
+    intro w hw
+    simp only [orEmpty, List.map_append, List.map_cons, List.contains_eq_mem, List.mem_append, List.mem_cons]
+    have : ¬ (w = lower t) := fun e => hw e.symm
+    simp [this]
+  refine ⟨bucket_only_by_membership lower a _ _ (key _ h1) (key _ h2) (key _ h3), ?_⟩
+  rw [normalize_spec, normalize_spec, key _ h1, key _ h2]
+
 /-! ### the running totals are plain sums over the list -/
 
 def eff (lower : String → String) (t : T) : Int := ClassPy.normalize_amount N lower t.amount t.tags
@@ -300,6 +324,11 @@ def sample : List T :=
 
 example : flowOf (analyze N asciiLower sample) = ⟨10000, 4200, 300, 2500, 0, 700, 6, -4300⟩ := by decide +kernel
 example : (analyze N asciiLower sample).byMerchant.lookup "Shop" = some (2, 3900) := by decide +kernel
+/-- near-miss tags under the driver's `asciiLower`: none of them is a special tag, so the bucket is spending -/
+example : ["income-tax", "Transfer fee", " income", "INVESTMENT:fees", "transfers", "reinvestment", "İncome", "tranſfer"].all
+    (fun t => asciiLower t != "income" && asciiLower t != "investment" && asciiLower t != "transfer") = true := by decide +kernel
+example : ClassPy.categorize_amount N asciiLower 500 (some ["income-tax", "Transfer fee", " income"]) = single .spending 500 := by
+  decide +kernel
 example : sample.Perm (sample.reverse) := (List.reverse_perm sample).symm
 
 end TallyVerif.Props.C06
